@@ -128,3 +128,10 @@ Proof.
       destruct (dec_digits_ok (Z.of_nat (S (count_sym (ie_sym ej) (firstn j es))))) as [_ Hd]; [lia|]. congruence.
     + apply (Hdist Hs); [discriminate|auto].
 Qed.
+
+Lemma sym_vars_lengths es : map (fun uv => length (snd uv)) (sym_vars es) = map (fun e => length (ie_keys e)) es.
+Proof.
+  unfold sym_vars. rewrite map_map.
+  rewrite (map_ext _ (fun ei : ielt * nat => length (ie_keys (fst ei)))) by (intros [e i]; simpl; apply map_length).
+  rewrite <- (map_map fst (fun e => length (ie_keys e))). rewrite map_fst_combine; auto. rewrite seq_length. auto.
+Qed.
